@@ -536,7 +536,7 @@ func TestVerif_Throttle(t *testing.T) {
 	defer c.Finish()
 	idx := int64(0)
 	// Part 1: random schedules, with wrapped-start failures for C06
-	n := c.N(20000, 600000)
+	n := c.N(20000, 4000000)
 	for s := int64(0); s < n; s++ {
 		myIdx := idx
 		idx++
@@ -566,7 +566,7 @@ func TestVerif_Throttle(t *testing.T) {
 		})
 	}
 	// Part 2: wrapped start failing at every call index (schedules with <= 12 base starts)
-	ns := c.N(400, 8000)
+	ns := c.N(400, 40000)
 	for s := int64(0); s < ns; s++ {
 		rng := c.RNG(idx + s*100)
 		cfg := thRandomConfig(rng)
@@ -588,7 +588,7 @@ func TestVerif_Throttle(t *testing.T) {
 	}
 	idx += ns * 100
 	// Part 3: constructed within budget (transparency without reading the bucket)
-	nt := c.N(3000, 60000)
+	nt := c.N(3000, 300000)
 	for s := int64(0); s < nt; s++ {
 		myIdx := idx
 		idx++
@@ -664,7 +664,7 @@ func TestVerif_Throttle(t *testing.T) {
 		})
 	}
 	// Part 4: composition with the real MotionProcessor (fake clock advanced 1/fps per frame)
-	nc := c.N(150, 4000)
+	nc := c.N(150, 20000)
 	for s := int64(0); s < nc; s++ {
 		myIdx := idx
 		idx++
